@@ -235,6 +235,13 @@ fn alphabet(dist: bool) -> Vec<Item> {
                     v.push(Item { name: iname, frames });
                 }
             }
+            // the same layout under sequence ids that use the top bit of their 64 bits
+            for (iname, seq) in [("kfragperm_asis_sequence_id_2^63", 1u64 << 63), ("kfragperm_asis_sequence_id_2^64-1", u64::MAX)] {
+                let mut fr: Vec<Vec<u8>> = vec![];
+                { let mut h = vec![131u8, 69]; h.extend_from_slice(&seq.to_be_bytes()); h.extend_from_slice(&3u64.to_be_bytes()); h.push(0); h.extend_from_slice(chunks[2]); fr.push(h); }
+                for id in [2u64, 1] { let mut c = vec![131u8, 70]; c.extend_from_slice(&seq.to_be_bytes()); c.extend_from_slice(&id.to_be_bytes()); c.extend_from_slice(chunks[id as usize - 1]); fr.push(c); }
+                v.push(Item { name: iname, frames: vec![(frame(&fr[0], 4), Exp::FragPart), (frame(&fr[1], 4), Exp::FragPart), (frame(&fr[2], 4), Exp::FragAsIsLast(m_plain.clone()))] });
+            }
             for (pname, aname, order) in perms {
                 let pf: Vec<(Vec<u8>, Exp)> = order.iter().enumerate().map(|(k, &i)| (frame(&proto[i], 4), if k == 2 { Exp::FragLast(dm.clone()) } else { Exp::FragPart })).collect();
                 v.push(Item { name: pname, frames: pf });
